@@ -48,7 +48,8 @@ def cases(ctx):
                     k += 1
                     if ctx.mine(k):
                         yield {"kind": "special", "flavour": flav, "mnemonic": m, "slot": slot, "special": special,
-                               "base": codec.rand_values(rng, isa.TABLE[flav][m][1]), "name": rng.choice(["delta", "t0", "angle_1", "n"])}
+                               "base": codec.rand_values(rng, isa.TABLE[flav][m][1]), "name": rng.choice(["delta", "t0", "angle_1", "n"]),
+                               "with_lineno": k % 3 == 0}
     for m, slot in (("set", 1), ("jmp", 0), ("beq", 2), ("bez", 1)):
         for special in ("true", "false"):
             k += 1
@@ -88,8 +89,16 @@ def cases(ctx):
 def _check_one(ctx, flav, fobj, m, vals, other=None):
     from netqasm.lang.parsing.text import parse_text_subroutine
     instr = codec.mk_instr(fobj, flav, m, vals)
-    text = str(instr)
     ctx.count("print_parse_checks")
+    if ctx.counters["print_parse_checks"] % 4 == 1:
+        # an instruction that remembers the host line it was compiled from (LogConfig(track_lines=True)) prints the same source
+        from netqasm.util.log import HostLine
+        instr.lineno = HostLine("app_alice.py", 7)
+        text = str(instr)
+        instr.lineno = None
+        ctx.count("printed_with_a_host_line")
+    else:
+        text = str(instr)
     try:
         if ctx.counters["print_parse_checks"] % 3 == 0:
             # the inline idiom parse_text_subroutine(text, flavour=NVFlavour()): temporary flavour objects of alternating
@@ -210,8 +219,22 @@ def _special(ctx, case):
     try:
         instr = fobj.get_instr_by_name(m).from_operands(ops)
     except Exception:
-        ctx.count("special_operand_not_accepted")
-        return ctx.case(case, False)
+        instr = None
+        if case["special"] == "template" and m.startswith("rot_"):
+            # the instruction object can also be had by filling the field in (what the SDK's builder does with its own objects):
+            # a template in either immediate of a rotation is a documented operand
+            try:
+                plain = [codec.mk_operand(kd, v) for kd, v in zip(kinds, case["base"])]
+                instr = fobj.get_instr_by_name(m).from_operands(plain)
+                setattr(instr, ("reg", "imm0", "imm1")[slot], ops[slot])
+            except Exception:
+                instr = None
+        if instr is None:
+            ctx.count("special_operand_not_accepted")
+            return ctx.case(case, False)
+    if case.get("with_lineno"):
+        from netqasm.util.log import HostLine
+        instr.lineno = HostLine("app_alice.py", 12)       # where the instruction came from is not part of its text
     text = str(instr)
     ctx.count("special_operand_print_parse_checks")
     try:
@@ -219,6 +242,8 @@ def _special(ctx, case):
     except Exception as e:
         ctx.fail(case, f"{flav}: the text {text!r} printed for {m} with a {case['special']} operand does not parse: {type(e).__name__}: {str(e)[:100]}")
         return ctx.case(case, True)
+    if case.get("with_lineno"):
+        instr.lineno = None
     if len(parsed) != 1 or parsed[0] != instr:
         ctx.fail(case, f"{flav}: the text {text!r} printed for {m} with a {case['special']} operand parses back as {[str(x) for x in parsed]} "
                        f"({[type(o).__name__ for o in parsed[0].operands] if parsed else ''})")
